@@ -904,4 +904,65 @@ theorem src_recv_flags (J : Int) (st : BufferedSocket.St Int) (w : NW) (size fla
     BufferedSocket.recv (mnet J) st size flags targ w = (.error .valueError, st, w) := by
   simp [BufferedSocket.recv, runMethod, BufferedSocket.recv.body, Blk.seq, Blk.ite, Blk.assign, Blk.raise, finishMethod, hfl]
 
+
+/-! ## send side (round 3f): `buffer`, `send`, `sendall`, `flush`
+
+The world of the send side is the model's send script (`C12.SEv`: how many bytes each `sock.send` takes, socket timeouts, the
+wall clock passing the deadline), the wire (everything the socket accepted so far) and the clock, which - as on the receive
+side and in the harness - jumps by `J` when a `sock.send` returns normally and leaves a `clock` event at the head of the
+script: the deadline check that follows then fires (`popClock`).  `sbuf` is the object's list attribute. -/
+
+structure SW where
+  script : List SEv
+  wire : Bytes
+  late : Bool
+deriving Repr
+
+def isClock : List SEv → Bool
+  | .clock :: _ => true
+  | _ => false
+
+/-- `sock.send(d)` on the model's send script (cf. `C12.sendLoop`, harness `FakeSock.send`) -/
+def netSend (d : PyRtC12.Bytes) (w : SW) : Except Exc Int × SW :=
+  match w.script with
+  | [] => (.ok ((d.length : Nat) : Int), ⟨[], w.wire ++ d, false⟩)
+  | .timeout :: r => (.error .sockTimeout, ⟨r, w.wire, false⟩)
+  | .clock :: r => (.error .sockTimeout, ⟨r, w.wire, false⟩)      -- a send that finds the deadline passed times out too
+  | .accept k :: r => (.ok ((min k d.length : Nat) : Int), ⟨r, w.wire ++ d.take k, isClock r⟩)
+
+/-- the model's send-side network as an instance of the operations the generated code calls -/
+def snet (J : Int) : Net SW Int where
+  recv := fun _ w => (.ok [], w)
+  settimeout := fun _ w => (.ok (), w)
+  send := netSend
+  time := fun w => (.ok (if w.late then J else 0), w)
+  fsub := fun a b => a - b
+  fle := fun a b => decide (a ≤ b)
+  fzero := 0
+  ftruthy := fun a => decide (a ≠ 0)
+
+theorem snet_send (J : Int) (d : PyRtC12.Bytes) (w : SW) : (snet J).send d w = netSend d w := rfl
+theorem snet_settimeout (J : Int) (t : Option Int) (w : SW) : (snet J).settimeout t w = (.ok (), w) := rfl
+theorem snet_time (J : Int) (w : SW) : (snet J).time w = (.ok (if w.late then J else 0), w) := rfl
+theorem snet_fsub (J a b : Int) : (snet J).fsub a b = a - b := rfl
+theorem snet_fle (J a b : Int) : (snet J).fle a b = decide (a ≤ b) := rfl
+theorem snet_fzero (J : Int) : (snet J).fzero = 0 := rfl
+theorem snet_truthy_some (J t : Int) : (snet J).truthyOpt (some t) = decide (t ≠ 0) := rfl
+
+/-- the script the model is left with: a `clock` event whose check fired is used up by that fault -/
+def ssettle (w : SW) : List SEv := if w.late then w.script.tail else w.script
+
+/-- the model's send-side state of an object in a world -/
+def sst (st : BufferedSocket.St Int) (w : SW) : SSt := ⟨st.sbuf, w.wire, w.script⟩
+
+/-- `buffer(data)` = the model's `buffer`: `data` is appended to `sbuf`, nothing is sent, `None` -/
+theorem src_buffer_eq_model (J : Int) (st : BufferedSocket.St Int) (w : SW) (data : Bytes) :
+    BufferedSocket.buffer (snet J) st data w = (.ok (), { st with sbuf := (buffer data (sst st w)).2.sbuf }, w) ∧
+    (buffer data (sst st w)).1 = .none ∧ (buffer data (sst st w)).2.wire = w.wire ∧
+    (buffer data (sst st w)).2.script = w.script := by
+  simp [BufferedSocket.buffer, runMethod, BufferedSocket.buffer.body, Blk.seq, Blk.assign, Blk.ret, finishMethod, buffer, sst]
+
+example : BufferedSocket.buffer (snet 100) ⟨[], [[1]], 10, some 5, 4⟩ [2, 3] ⟨[.accept 1], [], false⟩
+    = (.ok (), ⟨[], [[1], [2, 3]], 10, some 5, 4⟩, ⟨[.accept 1], [], false⟩) := rfl
+
 end C12
